@@ -354,7 +354,7 @@ theorem colAdd_wf {N L : Nat} {x y : Col} (hx : ColWF N L x) (hy : ColWF N L y) 
 
 /-- **the three tensor columns of a rank-1 product on coefficients.**  `p₀,p₁` / `r₀,r₁` are the prepared columns (`La` / `Lb` limbs,
 digits within `2^b`); the tensor has `ts` limbs; `H1 = 4·Lb·N·2^b` bounds the accumulators (in units `2^b`). -/
-theorem tensor2_value (N : Nat) (hN : 0 < N) (big : Bool) (b ts cnv : Nat) (hb1 : 1 ≤ b) (hb62 : b ≤ 60) (hts : 1 ≤ ts)
+theorem tensor2_value (N : Nat) (hN : 0 < N) (big : Bool) (b ts cnv : Nat) (hb1 : 1 ≤ b) (hb62 : b ≤ 61) (hts : 1 ≤ ts)
     (p0 p1 r0 r1 : Col) (La Lb : Nat) (hp0 : ColWF N La p0) (hp1 : ColWF N La p1) (hr0 : ColWF N Lb r0) (hr1 : ColWF N Lb r1)
     (hLa : 1 ≤ La) (hLb : 1 ≤ Lb)
     (dp0 : ∀ l ∈ p0, ∀ v ∈ l, |v| ≤ 2 ^ b) (dp1 : ∀ l ∈ p1, ∀ v ∈ l, |v| ≤ 2 ^ b)
